@@ -11,5 +11,5 @@ func init() {
 
 func genC17(g *Gen, tier string, w *bufio.Writer) {
 	genTrigOps(g, tier, w)
-	genGbOps(g, tier, w, int(seed())+1)
+	genGbOps(g, tier, w, int(seed())+1, true)
 }
